@@ -284,6 +284,8 @@ fn conc_cmd_strategy() -> impl Strategy<Value = Cmd> {
         3 => k.clone().prop_map(|k| Cmd::Set { k }),
         4 => select(vec![1, 3]).prop_map(|n| Cmd::Inc { k: "n".to_string(), n }),
         1 => k.clone().prop_map(|k| Cmd::Remove { k }),
+        // (two sessions creating the same user with different tokens: the user's token key is written by both)
+        1 => Just(Cmd::CreateUser { name: "u1".to_string() }),
     ]
 }
 
@@ -317,7 +319,10 @@ pub fn run_conc_case(ctx: &Ctx, case: &ConcCase) -> Outcome {
         for (pi, p) in case.programs.iter().enumerate() {
             let mut lines = vec![format!("auth {} {}", crate::node::USER, crate::node::PWD), "use-db d tok".to_string()];
             for (ci, cmd) in p.iter().enumerate() {
-                lines.push(render(cmd, &format!("p{}c{}", pi, ci), 0));
+                lines.push(match cmd {
+                    Cmd::CreateUser { name } => format!("create-user {} tok-p{}c{}", name, pi, ci),
+                    _ => render(cmd, &format!("p{}c{}", pi, ci), 0),
+                });
             }
             keys_by_prog.push(p.iter().filter_map(key_of).collect());
             programs.push(lines);
@@ -348,10 +353,10 @@ pub fn run_conc_case(ctx: &Ctx, case: &ConcCase) -> Outcome {
             let sd = s.get("d").cloned().unwrap_or_default();
             let mut what = "database-list".to_string();
             let mut detail = format!("primary {:?} secondary {:?}", p.keys().collect::<Vec<_>>(), s.keys().collect::<Vec<_>>());
-            for k in ["a", "n"] {
+            for k in ["a", "n", "$$user_u1"] {
                 if pd.get(k) != sd.get(k) {
                     let cmds: std::collections::BTreeSet<&'static str> = case.programs.iter().flatten().filter(|c| key_of(c).as_deref() == Some(k)).map(cmd_name).collect();
-                    what = format!("{}|{}", if k == "n" { "counter" } else { "text-key" }, cmds.into_iter().collect::<Vec<_>>().join("+"));
+                    what = format!("{}|{}", if k == "n" { "counter" } else if k.starts_with("$$") { "user-token-key" } else { "text-key" }, cmds.into_iter().collect::<Vec<_>>().join("+"));
                     detail = format!("key {:?}: primary has {:?}, the secondary {:?} after everything was delivered; programs {:?}", k, pd.get(k), sd.get(k), case.programs);
                     break;
                 }
